@@ -75,6 +75,8 @@ def r1_weights(ctx):
                     return True
                 if srcs == [Q.sub(src, 1), Q.sub(src, 0)]:
                     return False
+                if all(x[0] == "sub" and x[1] == src and is_int(x[2]) for x in srcs):
+                    return False        # e.g. component 0 twice: a component is dropped / duplicated
             return None
         okd = concat_of(d, Q.sub(cfi, 1))
         ctx.check("R3", "%s|data-stacked-east-first|%s" % (qn, tag), okd, "data = concatenate of the raveled validated components, east first (the order of the Jacobian's row blocks)",
